@@ -22,6 +22,13 @@ def hmac (H : Bytes → Bytes) (key msg : Bytes) : Bytes :=
   let k := k0 ++ List.replicate (64 - k0.length) 0
   H (k.map (fun b => Nat.xor 0x5C b) ++ H (k.map (fun b => Nat.xor 0x36 b) ++ msg))
 
+/-- `WARequest.__init__`: `self._p_in = str(config.phone)[len(str(config.cc)):]` — the number without its country code -/
+def nationalOf (cc phone : Bytes) : Bytes := phone.drop cc.length
+
+/-- the `token` parameter of the code / exists requests: `getToken(self._p_in)` -/
+def requestToken (H : Bytes → Bytes) (key sig cls cc phone : Bytes) : Bytes :=
+  tokenRaw H key sig cls (nationalOf cc phone)
+
 /-! ### urlencode -/
 
 def isLiteral (b : Nat) : Bool :=
